@@ -44,7 +44,7 @@ Zero == [i \in Ids(Cfg) |-> 0]
 HEv(op, id) == [op |-> op, id |-> id]
 Edge(op, id, did, v, ok, none, m) ==
   [op |-> op, id |-> id, did |-> did, v |-> v, ok |-> ok, none |-> none, kind |-> m.k, mid |-> m.id, mv |-> m.v,
-   middid |-> FALSE, midop |-> "", midid |-> 0, midv |-> 0]
+   middid |-> FALSE, midop |-> "", midid |-> 0, midv |-> 0, midhanded |-> FALSE]
 NoMsg == [k |-> "", id |-> 0, v |-> 0]
 Obs(a, s, q) == [act |-> a, sb |-> s, inbox |-> Len(q)]
 
